@@ -182,15 +182,17 @@ fn aimd_componentwise_outcomes(cfg: &Cfg) -> BTreeSet<String> {
 pub fn configs(tier: Tier) -> Vec<Cfg> {
     let programs: Vec<Vec<&'static str>> = vec![vec!["W", "D"], vec!["WW", "D"], vec!["W", "DD"], vec!["W", "W", "D"], vec!["WD", "DW"], vec!["D", "D"], vec!["W", "W"]];
     let mut v = vec![];
-    let tok: Vec<(usize, usize)> = tier.pick(vec![(1, 2), (2, 3)], vec![(1, 2), (2, 3), (1, 3), (2, 2), (0, 2)]);
+    let tok: Vec<(usize, usize)> = tier.pick(vec![(1, 2), (2, 3), (1, 1)], vec![(1, 2), (2, 3), (1, 3), (2, 2), (0, 2), (1, 1), (3, 4)]);
     for (initial, max) in tok {
         for p in &programs {
             v.push(Cfg { aimd: false, initial, max, deposit: 1, withdraw: 1, min: 0, programs: p.clone() });
         }
     }
+    // (min, max, start, deposit, withdraw); several start one deposit below the ceiling, so
+    // that two racing deposits can overshoot it
     let aimd: Vec<(usize, usize, usize, usize, usize)> = tier.pick(
-        vec![(1, 3, 1, 1, 1), (1, 2, 1, 1, 2)],
-        vec![(1, 3, 1, 1, 1), (1, 2, 1, 1, 2), (1, 3, 1, 2, 1), (1, 3, 2, 1, 2), (1, 3, 0, 1, 1), (1, 3, 2, 2, 2)],
+        vec![(1, 3, 1, 1, 1), (1, 2, 1, 1, 2), (1, 2, 1, 1, 1), (1, 3, 2, 2, 1)],
+        vec![(1, 3, 1, 1, 1), (1, 2, 1, 1, 2), (1, 2, 1, 1, 1), (1, 3, 2, 2, 1), (1, 3, 1, 2, 1), (1, 3, 2, 1, 2), (1, 3, 0, 1, 1), (1, 3, 2, 2, 2), (1, 4, 3, 1, 1)],
     );
     for (min, max, initial, deposit, withdraw) in aimd {
         for p in &programs {
